@@ -264,7 +264,7 @@ func (v *Verifier) callEffects(info *types.Info, call *ast.CallExpr, ef *Effects
 			if c := v.specs.Contracts[typesFuncKey(fn)]; c != nil {
 				for _, m := range c.Modifies {
 					if id, ok := m.Expr.(*ast.Ident); ok {
-						if _, isG := v.specs.GhostVars[id.Name]; isG {
+						if gv, isG := v.specs.GhostVars[id.Name]; isG && !gv.Scratch {
 							ef.G[id.Name] = true
 						}
 					}
@@ -304,7 +304,7 @@ func (v *Verifier) computeEffects() {
 		if c := v.specs.Contracts[k]; c != nil {
 			for _, m := range c.Modifies {
 				if id, ok := m.Expr.(*ast.Ident); ok {
-					if _, isG := v.specs.GhostVars[id.Name]; isG {
+					if gv, isG := v.specs.GhostVars[id.Name]; isG && !gv.Scratch {
 						v.effects[k].G[id.Name] = true
 					}
 				}
